@@ -90,7 +90,7 @@ func e13Run(r *Res, d e13desc, fireStep, firePoint int) int {
 	}
 	fam := filterFamily()
 	t := newTree(g.ctl)
-	var tmu sync.Mutex
+	tmu := newChanLock()
 	if err := t.grow(rng, 6+rng.Intn(4), 4, fam, childKinds, true); err != nil {
 		r.V("C12", "tree-build-error", "%v", err)
 		return 0
